@@ -1,6 +1,7 @@
 package exec
 
 import (
+	"go/types"
 	"math"
 	"fmt"
 	"go/token"
@@ -150,4 +151,137 @@ func init() {
 		return Str{S: "<duration>", Opq: true}
 	}
 	delete(intrinsics, "(time.Duration).String")
+}
+
+func init() {
+	// context.WithValue without the reflective comparability check of the key.
+	intrinsics["context.WithValue"] = func(m *Machine, fr *frame, pos token.Pos, _ *ssa.Function, a []Value) Value {
+		cp := m.W.Prog.ImportedPackage("context")
+		vt := cp.Type("valueCtx").Object().Type()
+		var cell Value = Struct{a[0], a[1], a[2]}
+		return Iface{T: types.NewPointer(vt), V: &cell}
+	}
+	// Deadlines never fire (no timer model): WithTimeout / WithDeadline behave like WithCancel.
+	withCancel := func(m *Machine, fr *frame, pos token.Pos, _ *ssa.Function, a []Value) Value {
+		return m.callNamed(fr, pos, "context", "WithCancel", []Value{a[0]})
+	}
+	intrinsics["context.WithTimeout"] = withCancel
+	intrinsics["context.WithDeadline"] = withCancel
+}
+
+// ---- gRPC status errors (the real ones sit on protobuf reflection, which is not interpretable) ----
+// A status error is the real named type *internal/status.Error whose payload cell is engine-defined:
+// Struct{code (BV32), message}. Every function that looks inside is an intrinsic below.
+
+const grpcStatusPkg = "google.golang.org/grpc/internal/status"
+
+func (m *Machine) grpcErrType() types.Type {
+	p := m.W.Prog.ImportedPackage(grpcStatusPkg)
+	if p == nil {
+		panic(unsupported("grpc internal status package not loaded"))
+	}
+	return types.NewPointer(p.Type("Error").Object().Type())
+}
+
+func (m *Machine) grpcStatusOf(fr *frame, pos token.Pos, err Iface) (*Value, bool) {
+	et := m.grpcErrType()
+	for depth := 0; err.T != nil && depth < 16; depth++ {
+		if typeIdentical(err.T, et) {
+			return err.V.(*Value), true
+		}
+		f := m.findMethod(err.T, "Unwrap")
+		if f == nil || f.Signature.Results().Len() != 1 {
+			// pkg/errors types also expose Cause()
+			f = m.findMethod(err.T, "Cause")
+			if f == nil {
+				return nil, false
+			}
+		}
+		r, ok := m.callSSA(fr, pos, f, []Value{err.V}, nil).(Iface)
+		if !ok {
+			return nil, false
+		}
+		err = r
+	}
+	return nil, false
+}
+
+func init() {
+	I := intrinsics
+	newStatus := func(m *Machine, code *sym.Term, msg Str) *Value {
+		var cell Value = Struct{m.toWidth(code, 32, false), msg}
+		return &cell
+	}
+	I["google.golang.org/grpc/status.Error"] = func(m *Machine, _ *frame, _ token.Pos, _ *ssa.Function, a []Value) Value {
+		code := a[0].(*sym.Term)
+		if code.IsConst() && code.C == 0 {
+			return Iface{}
+		}
+		return Iface{T: m.grpcErrType(), V: newStatus(m, code, m.strOf(a[1]))}
+	}
+	I["google.golang.org/grpc/status.Errorf"] = func(m *Machine, fr *frame, pos token.Pos, _ *ssa.Function, a []Value) Value {
+		code := a[0].(*sym.Term)
+		return Iface{T: m.grpcErrType(), V: newStatus(m, code, m.sprintf(fr, pos, m.strOf(a[1]), a[2].(Slice)))}
+	}
+	I["google.golang.org/grpc/status.Code"] = func(m *Machine, fr *frame, pos token.Pos, _ *ssa.Function, a []Value) Value {
+		err := a[0].(Iface)
+		if err.T == nil {
+			return m.bv(32, 0)
+		}
+		if st, ok := m.grpcStatusOf(fr, pos, err); ok {
+			return (*st).(Struct)[0]
+		}
+		return m.bv(32, 2) // codes.Unknown
+	}
+	I["google.golang.org/grpc/status.FromError"] = func(m *Machine, fr *frame, pos token.Pos, _ *ssa.Function, a []Value) Value {
+		err := a[0].(Iface)
+		if err.T == nil {
+			return Tuple{(*Value)(nil), m.F.True()}
+		}
+		if st, ok := m.grpcStatusOf(fr, pos, err); ok {
+			return Tuple{st, m.F.True()}
+		}
+		return Tuple{newStatus(m, m.bv(32, 2), Str{S: "unknown"}), m.F.False()}
+	}
+	I["google.golang.org/grpc/status.Convert"] = func(m *Machine, fr *frame, pos token.Pos, _ *ssa.Function, a []Value) Value {
+		err := a[0].(Iface)
+		if err.T == nil {
+			return (*Value)(nil)
+		}
+		if st, ok := m.grpcStatusOf(fr, pos, err); ok {
+			return st
+		}
+		return newStatus(m, m.bv(32, 2), Str{S: "unknown"})
+	}
+	I["(*"+grpcStatusPkg+".Status).Code"] = func(m *Machine, _ *frame, _ token.Pos, _ *ssa.Function, a []Value) Value {
+		p := a[0].(*Value)
+		if p == nil {
+			return m.bv(32, 0)
+		}
+		return (*p).(Struct)[0]
+	}
+	I["(*"+grpcStatusPkg+".Status).Message"] = func(m *Machine, _ *frame, _ token.Pos, _ *ssa.Function, a []Value) Value {
+		p := a[0].(*Value)
+		if p == nil {
+			return Str{}
+		}
+		return (*p).(Struct)[1]
+	}
+	I["(*"+grpcStatusPkg+".Status).Err"] = func(m *Machine, _ *frame, _ token.Pos, _ *ssa.Function, a []Value) Value {
+		p := a[0].(*Value)
+		if p == nil {
+			return Iface{}
+		}
+		if c := (*p).(Struct)[0].(*sym.Term); c.IsConst() && c.C == 0 {
+			return Iface{}
+		}
+		return Iface{T: m.grpcErrType(), V: p}
+	}
+	I["(*"+grpcStatusPkg+".Error).Error"] = func(m *Machine, _ *frame, _ token.Pos, _ *ssa.Function, a []Value) Value {
+		p := a[0].(*Value)
+		return m.strConcat(Str{S: "rpc error: "}, (*p).(Struct)[1].(Str))
+	}
+	I["(*"+grpcStatusPkg+".Error).GRPCStatus"] = func(m *Machine, _ *frame, _ token.Pos, _ *ssa.Function, a []Value) Value {
+		return a[0]
+	}
 }
